@@ -1400,6 +1400,8 @@ def main():
         fam_trivia('trivia:skel:dev2:cfgB', 'skel', (2,), False, CORPUS_CFGS[1])
         fam_trivia('trivia:skel:dev2:cfgC', 'skel', (2,), False, CORPUS_CFGS[3])
         fam_trivia('trivia:s1:dev2', 's1', (2,), False)
+        fam_trivia('trivia:s1:dev2:cfgB', 's1', (2,), False, CORPUS_CFGS[1])
+        fam_trivia('trivia:s1:dev2:cfgC', 's1', (2,), False, CORPUS_CFGS[3])
         fam_trivia('trivia:s2:dev1:cfgB', 's2', (1,), False, CORPUS_CFGS[1])
         fam_trivia('trivia:s2:dev1:cfgC', 's2', (1,), False, CORPUS_CFGS[3])
         PROGS['triple'] = [('+'.join(n for n, _ in tup), [t for _, toks in tup for t in toks])
